@@ -417,10 +417,17 @@ def run_group(key, cases, full, only_int=False):
                         for k in range(nparams):
                             vals = [p[k] for p in pvals]
                             params.append(vals[0] if pform == "scalar" else param_array(layout, vals, n))
+                        from .session import digest as _digest
+
+                        before = (_digest(A), _digest(B) if not isinstance(B, (int, float)) else None)
                         with warnings.catch_warnings(), numpy.errstate(all="ignore"):
                             warnings.simplefilter("ignore")
                             out = call(op, A, B, params, fixed, oform)
                         calls += 1
+                        # the arrays handed in are what the next call will see: they must still hold the same elements
+                        after = (_digest(A), _digest(B) if not isinstance(B, (int, float)) else None)
+                        if after != before:
+                            recs.append(dict(base, kind="operand-array-changed-by-the-call", which="first" if after[0] != before[0] else "second"))
                     except NotIntegral:
                         continue
                     except Exception as ex:
